@@ -13,7 +13,7 @@ from vlib.refsem import SENT_BASE
 from checks import common
 
 PROP = 'C10'
-TICK_BOUND = 4
+TICK_BOUND = 4          # raised to 6 in the thorough tier
 
 
 class VTime:
@@ -359,9 +359,12 @@ def plans(maxlen):
 
 
 def run(tier, seed):
+    global TICK_BOUND
     t0 = time.time()
     q = tier == 'quick'
-    items = [{'kind': 'clock', 'plan': p, 'max_paths': 3000 if q else 40000, 'budget_s': 25 if q else 300} for p in plans(3 if q else 4)]
+    if not q:
+        TICK_BOUND = 6
+    items = [{'kind': 'clock', 'plan': p, 'max_paths': 3000 if q else 60000, 'budget_s': 25 if q else 300} for p in plans(3 if q else 5)]
     S = SENT_BASE
     vm = [('logical', 'time %d on all time %d off all on "A"' % (S + 1, S + 2), [1, 2], [[1], [1, 2], [1, 2, 2]], 'two-delays'),
           ('raw', 'units raw time %d on all time %d off all' % (S + 1, S + 2), [1, 2], [[1], [1, 2]], 'raw-ms'),
@@ -374,14 +377,14 @@ def run(tier, seed):
     results, skipped = report.run_pool(dispatch, items, budget_s=common.tier_budget(tier, 70, 900))
     return report.finish(
         PROP, tier, seed, 'exploration', results, skipped,
-        rule='work item = one sequence of up to 3 (quick) / 4 (thorough) statements, each a timed delay, a zero delay or a time-of-day wait, executed by the real Clock with '
+        rule='work item = one sequence of up to 3 (quick) / 5 (thorough) statements, each a timed delay, a zero delay or a time-of-day wait, executed by the real Clock with '
              'symbolic start instant, delay values, work before each statement, tick length and tick phase (each Event.wait returns after an arbitrary amount in (0, tick]); '
              'or one script on the real VM bound to the real Clock with symbolic time registers and symbolic transmission times. z3 shows on every path: never early, '
              'within one tick when not late, immediate return with no extra delay when late, zero delay never blocks, time line restarts after a time-of-day wait',
         assumptions=['time.time, threading and datetime inside bardolph.lib.clock are stubs: the clock thread is represented by Event.wait returning at the next tick instant',
                      'at most %d ticks per delay (longer waits are out of bound and counted)' % TICK_BOUND,
                      'a time-of-day wait observes its minute after 0..3 polls (choice variable)'],
-        bounds={'statements': 3 if q else 4, 'ticks_per_delay': TICK_BOUND, 'delays': '0..1000 s', 'work': '0..1000 s'},
+        bounds={'statements': 3 if q else 5, 'ticks_per_delay': TICK_BOUND, 'delays': '0..1000 s', 'work': '0..1000 s'},
         t0=t0, technique='bounded symbolic execution of the real Clock and VM WAIT path with time as a symbolic variable (proxy objects, z3 LRA)')
 
 
